@@ -119,31 +119,37 @@ void harness(void){
     htp_config_register_response_start(CFG,cb_res_start); htp_config_register_response_line(CFG,cb_res_line); htp_config_register_response_headers(CFG,cb_res_headers);
     htp_config_register_response_body_data(CFG,cb_res_body); htp_config_register_response_complete(CFG,cb_res_complete); htp_config_register_transaction_complete(CFG,cb_txc);
     __CPROVER_assume(CFG->hook_request_start&&CFG->hook_request_line&&CFG->hook_request_headers&&CFG->hook_request_body_data&&CFG->hook_request_trailer&&CFG->hook_request_complete&&CFG->hook_response_start&&CFG->hook_response_line&&CFG->hook_response_headers&&CFG->hook_response_body_data&&CFG->hook_response_complete&&CFG->hook_transaction_complete);
-    CFG->tx_auto_destroy=in_bool(); CFG->field_limit_hard=18000;
+    CFG->field_limit_hard=18000;
     P=htp_connp_create(CFG); __CPROVER_assume(P);
     P->in_status=HTP_STREAM_OPEN; P->out_status=HTP_STREAM_OPEN;
-    for(int k=0;k<NREQ;k++){ METHOD[k]=in_bool()?HTP_M_CONNECT:HTP_M_GET; HASBODY[k]=(METHOD[k]==HTP_M_GET)?in_bool():0;
-        unsigned s=in_range(0,4); STATUS[k]= s==0?200: s==1?404: s==2?407: s==3?101:100; }
-    TUNNEL_HTTP=in_bool();
-    /* per-query concretisation of the script (the remaining symbolic dimensions are listed in the obligation's bounds) */
-#ifdef M0
-    __CPROVER_assume(METHOD[0]==M0);
+    /* the script is concrete per query (symbolic scripts did not finish: DESIGN.md section 1); what the solver decides per query
+     * is the run of the real code on it, including every pointer / free / bounds check under auto-destroy */
+#ifndef M0
+#define M0 HTP_M_GET
 #endif
-#ifdef B0
-    __CPROVER_assume(HASBODY[0]==B0);
+#ifndef B0
+#define B0 0
 #endif
-#ifdef S0
-    __CPROVER_assume(STATUS[0]==S0);
+#ifndef S0
+#define S0 200
 #endif
-#ifdef M1
-    __CPROVER_assume(NREQ<2 || (METHOD[NREQ-1]==M1 && HASBODY[NREQ-1]==0 && STATUS[NREQ-1]==200));
+#ifndef M1
+#define M1 HTP_M_GET
 #endif
-#ifdef TH
-    __CPROVER_assume(TUNNEL_HTTP==TH);
+#ifndef S1
+#define S1 200
 #endif
-#ifdef AD
-    __CPROVER_assume(CFG->tx_auto_destroy==AD);
+#ifndef M2
+#define M2 HTP_M_GET
 #endif
+#ifndef S2
+#define S2 200
+#endif
+#ifndef TH
+#define TH 0
+#endif
+    { unsigned m[3]={M0,M1,M2}, st[3]={S0,S1,S2}; for(int k=0;k<NREQ;k++){ METHOD[k]=m[k]; STATUS[k]=st[k]; HASBODY[k]=(k==0)?B0:0; } }
+    TUNNEL_HTTP=TH; CFG->tx_auto_destroy=AD;
     /* known finding F4: after a CONNECT the response side yields DATA_OTHER from htp_tx_state_response_complete_ex with the response
      * already marked complete but still attached; when the request side then completes (refused CONNECT, or accepted CONNECT whose
      * tunnel carries HTTP) the transaction is finalised by both sides: TRANSACTION_COMPLETE twice */
